@@ -757,3 +757,19 @@ v("c01-returned-base-exception-reraised", "C01", "RAISED-VALUE-CLASS", E + "exec
   "        if isinstance(result, Exception):\n            raise result\n", "        if isinstance(result, BaseException):\n            raise result\n")
 v("c01-returned-exception-test-in-local", "C01", "RAISED-VALUE-CLASS", E + "executor.py",
   "        if isinstance(result, Exception):\n            raise result\n", "        is_error = isinstance(result, Exception)\n        if is_error:\n            raise result\n", expect="silent")
+
+# -- round 5: C09 / C08 --------------------------------------------------------------------------------------
+v("c09-name-continue-by-unicode-regex", "C09", "LEXER-ASCII", L + "lexer.py",
+  "        while position < body_length:\n            char = body[position]\n            if not is_name_continue(char):\n                break\n            position += 1\n\n        return self.create_token(TokenKind.NAME,",
+  "        import re\n\n        position = re.compile(r\"\\w*\").match(body, position).end()  # type: ignore\n        return self.create_token(TokenKind.NAME,")
+v("c09-name-continue-by-ascii-regex", "C09", "LEXER-ASCII", L + "lexer.py",
+  "        while position < body_length:\n            char = body[position]\n            if not is_name_continue(char):\n                break\n            position += 1\n\n        return self.create_token(TokenKind.NAME,",
+  "        import re\n\n        position = re.compile(r\"[_0-9A-Za-z]*\").match(body, position).end()  # type: ignore\n        return self.create_token(TokenKind.NAME,",
+  expect="silent")
+v("c09-cr-at-end-indexes-past-the-source", "C09", "LEX-BOUNDS", L + "lexer.py",
+  "                if body[position + 1 : position + 2] == \"\\n\":\n                    position += 2\n                else:\n                    position += 1\n                self.line += 1\n",
+  "                position += 1\n                if body[position] == \"\\n\":\n                    position += 1\n                self.line += 1\n")
+v("c08-trailing-triple-quotes-from-raw-value", "C08", "BLOCK-PRINT-TABLE", L + "block_string.py",
+  "    has_trailing_triple_quotes = escaped_value.endswith('\\\\\"\"\"')\n", "    has_trailing_triple_quotes = value.endswith('\"\"\"')\n")
+v("c08-trailing-backslash-parity", "C08", "BLOCK-PRINT-TABLE", L + "block_string.py",
+  "    has_trailing_slash = value.endswith(\"\\\\\")\n", "    has_trailing_slash = (len(value) - len(value.rstrip(\"\\\\\"))) % 2 == 1\n")
